@@ -827,7 +827,7 @@ class Processor:
                     and hasattr(parent, "merge")
                     and len(parent.merge) > 0
                 ):
-                    for (midx, merge_node) in parent.merge:
+                    for midx, (_, merge_node) in enumerate(parent.merge):
                         if merge_node == compare_node:
                             for (key, val) in merge_node.items():
                                 if key in parent and parent[key] == val:
